@@ -197,6 +197,25 @@ def handle (op : String) (j : Json) : Except String Json := do
     let kind := if (← getStr j "mode") == "legacy-sse" then classifyLegacySSE env else classifyMessageType env
     pure (Json.mkObj [("kind", match kind with
       | .request => "request" | .response => "response" | .error => "error" | .notification => "notification" | .invalid => "invalid")])
+  -- a registration history: the listing after every `list` step, the answering version after every `call` step
+  -- (descriptor + handler = the version tag; unordered kinds are compared sorted by key)
+  | "history" =>
+    let keepFirst := (j.getObjValD "keepFirst").getBool?.toOption.getD false
+    let ordered := (j.getObjValD "ordered").getBool?.toOption.getD false
+    let steps ← getArr j "steps"
+    let mut r : Registry.Reg Text := []
+    let mut lists : Array Json := #[]
+    let mut calls : Array Json := #[]
+    for st in steps do
+      match ← getStr st "op" with
+      | "reg" => r := Registry.step keepFirst r (.reg (← getText st "name") (← getText st "tag"))
+      | "unreg" => r := Registry.step keepFirst r (.unreg (← (← getArr st "names").toList.mapM textOfJson))
+      | "list" =>
+        let shown := if ordered then r else (r.toArray.qsort (fun a b => a.1 < b.1)).toList
+        lists := lists.push (.arr (shown.map (fun p => Json.arr #[txt p.1, txt p.2])).toArray)
+      | "call" => calls := calls.push (match Registry.find r (← getText st "name") with | some t => txt t | none => .null)
+      | k => throw s!"history step {k}"
+    pure (Json.mkObj [("lists", .arr lists), ("calls", .arr calls)])
   | "e2e.error" =>
     let p ← match ← getStr j "path" with
       | "tool" => pure (Path.tool (← getText j "tool"))
